@@ -83,6 +83,7 @@ pub fn check_history(ctx: &RunCtx) -> RunStats {
                     let detail = format!("object {}: op {} ({}, disposition {}) returned at stamp {} before op {} ({}) was invoked at {}, but op {} started at {} while op {} {}",
                         obj, a, ka, prog.ops[a].disp.name(), ret_a, b, kb, inv_b, b, start_b, a, if end_a == 0 { "had not finished".to_string() } else { format!("finished only at {}", end_a) });
                     ctx.sink.report("C02", "call_order_violated", format!("order:{}>{}", ka, kb), detail.clone());
+                    if involves(ctx, a, b, Kind::TrySync) { ctx.sink.report("C09", "try_sync_ran_out_of_order", format!("order:{}>{}", ka, kb), detail.clone()); }
                     if involves(ctx, a, b, Kind::FutSync) { ctx.sink.report("C08", "future_sync_slot_order_violated", format!("order:{}>{}", ka, kb), detail.clone()); }
                 }
             }
